@@ -75,6 +75,25 @@ div_round_up(T& to,
   assign_r(to, q_x, ROUND_UP);
 }
 
+template <typename T>
+inline typename Enable_If<Is_Native_Or_Checked<T>::value, void>::type
+div_round_up_by_positive(T& x, Coefficient_traits::const_reference y) {
+  PPL_ASSERT(y > 0);
+  PPL_DIRTY_TEMP(T, approx_y);
+  // (sgn() throws on a Not-a-Number: leave it as it is.)
+  if (is_not_a_number(x)) {
+    return;
+  }
+  if (sgn(x) < 0) {
+    // The magnitude of a negative quotient must not grow.
+    assign_r(approx_y, y, ROUND_UP);
+  }
+  else {
+    assign_r(approx_y, y, ROUND_DOWN);
+  }
+  div_assign_r(x, x, approx_y, ROUND_UP);
+}
+
 template <typename N>
 inline void
 min_assign(N& x, const N& y) {
